@@ -266,9 +266,9 @@ impl SqlWriter for SimWriter {
 #[derive(Clone, Copy, Debug, PartialEq, Eq, serde::Serialize, serde::Deserialize)]
 pub enum IterB {
     Honest,
-    /// size_hint() = (0, Some(0)) whatever is yielded
+    /// honest but useless size_hint(): (0, None) — what `filter` / `flat_map` chains report
     LieLow,
-    /// size_hint() = (n + 7, Some(n + 7))
+    /// honest but inexact size_hint(): (n / 2, Some(n + 7)) — what `chain` + `filter` reports
     LieHigh,
     /// panics when asked for item number j (0-based), i.e. after j items were yielded
     PanicAfter(u8),
@@ -310,10 +310,10 @@ impl<T> Iterator for SimIter<T> {
         let n = self.inner.len();
         match self.b {
             IterB::Honest | IterB::PanicAfter(_) => (n, Some(n)),
-            IterB::LieLow => (0, Some(0)),
-            IterB::LieHigh => (n + 7, Some(n + 7)),
+            IterB::LieLow => (0, None),
+            IterB::LieHigh => (n / 2, Some(n + 7)),
         }
     }
 }
 
-impl<T> ExactSizeIterator for SimIter<T> {}
+// (deliberately not ExactSizeIterator: the loose hints would break its contract)
